@@ -473,6 +473,18 @@ func generate(e *vh.Env) {
 			}
 		}
 	}
+	// deterministic calendar members (end of February of 2000/2004/2100/2400, year and month ends)
+	nCal := 0
+	for _, m := range calendarCorpus(e) {
+		if want("cn") {
+			emitCn(e, m.c, m.id, "calendar-corpus")
+			nCal++
+		}
+		if want("fields") && nCal%3 == 0 {
+			emitFields(e, m.c, m.id, "calendar-corpus")
+		}
+	}
+	e.Meta["calendar_corpus_ids"] = nCal
 	if want("setup") {
 		for _, c := range setupOddities(e) {
 			emitSetup(e, c, "option-values")
